@@ -978,7 +978,12 @@ func (t *FnTrans) ghostAt(where string) {
 						}
 						if s := t.termOfOpt(v); s != "" {
 							T := t.resolve(a.Type())
-							env.vars[fmt.Sprintf("arg%d", i)] = SVal{S: s, T: T, Sort: t.sortOf(T)}
+							sv := SVal{S: s, T: T, Sort: t.sortOf(T)}
+							if v.Fn != nil {
+								vv := v
+								sv.FnV = &vv // a function value known statically (isfunc)
+							}
+							env.vars[fmt.Sprintf("arg%d", i)] = sv
 						}
 					}
 				}
